@@ -503,4 +503,117 @@ def _assigned_on_self(cls, attr):
 def run(chk, repo, tier):
     models = all_models(repo, chk)
     r1(chk, repo, models)
+    r2(chk, repo, models)
     r3(chk, repo)
+
+
+# --------------------------------------------------------------------------- R2
+def _self_attr_writes(cls, methods):
+    """attribute -> [(method, lineno)] written (bound, element-stored, augmented,
+    mutated in place) in the given methods (helpers called through self included)."""
+    out = {}
+    seen = set()
+    work = [m for m in methods if m in cls.methods]
+    while work:
+        mn = work.pop()
+        if mn in seen:
+            continue
+        seen.add(mn)
+        f = cls.methods[mn]
+        for n in ast.walk(f.node):
+            tg = []
+            if isinstance(n, ast.Assign):
+                tg = list(n.targets)
+            elif isinstance(n, (ast.AugAssign, ast.AnnAssign)):
+                tg = [n.target]
+            for t in tg:
+                for tt in (t.elts if isinstance(t, (ast.Tuple, ast.List)) else [t]):
+                    root, _ = _root(tt)
+                    if isinstance(root, ast.Attribute) and isinstance(root.value, ast.Name) and root.value.id == "self":
+                        out.setdefault(root.attr, []).append((mn, n.lineno))
+            if isinstance(n, ast.Call) and isinstance(n.func, ast.Attribute):
+                if isinstance(n.func.value, ast.Name) and n.func.value.id == "self" and n.func.attr in cls.methods:
+                    work.append(n.func.attr)
+                if n.func.attr in MUTATING_METHODS:
+                    root, _ = _root(n.func.value)
+                    if isinstance(root, ast.Attribute) and isinstance(root.value, ast.Name) and root.value.id == "self":
+                        out.setdefault(root.attr, []).append((mn, n.lineno))
+    return out
+
+
+def _attrs_in_test(f, test):
+    """self attributes a test expression depends on, directly or through a
+    local assigned from a self attribute in the same function."""
+    local_src = {}
+    for n in ast.walk(f.node):
+        if isinstance(n, ast.Assign) and len(n.targets) == 1:
+            names = []
+            t = n.targets[0]
+            if isinstance(t, ast.Name):
+                names = [t.id]
+            elif isinstance(t, (ast.Tuple, ast.List)):
+                names = [e.id for e in t.elts if isinstance(e, ast.Name)]
+            attrs = {m.attr for m in ast.walk(n.value) if isinstance(m, ast.Attribute) and isinstance(m.value, ast.Name) and m.value.id == "self"}
+            for nm in names:
+                if attrs:
+                    local_src.setdefault(nm, set()).update(attrs)
+    out = set()
+    for m in ast.walk(test):
+        if isinstance(m, ast.Attribute) and isinstance(m.value, ast.Name) and m.value.id == "self":
+            out.add(m.attr)
+        elif isinstance(m, ast.Name) and m.id in local_src:
+            out |= local_src[m.id]
+        elif isinstance(m, ast.Call) and unparse(m.func) == "hasattr" and len(m.args) == 2 and unparse(m.args[0]) == "self" and isinstance(m.args[1], ast.Constant):
+            out.add(m.args[1].value)
+    return out
+
+
+R2_EXEMPT = {}
+
+
+def r2(chk, repo, models):
+    chk.rule(
+        "R2",
+        "no branch of an evaluation / linearisation method depends on instance state that such methods themselves write (memo flags, 'unchanged since last call' shortcuts, lazily initialised caches): the result of a call must not depend on what was evaluated before",
+        min_decided=100,
+    )
+    for m in models:
+        c = m.cls
+        if c.name in POSTPROCESSING or c.name in NEVER_INSTANTIATED:
+            continue
+        run_methods = [mn for mn in c.methods if mn in EVAL_METHODS or mn in LIN_METHODS]
+        if not run_methods:
+            continue
+        writes = _self_attr_writes(c, run_methods)
+        # helpers reached from the run-time methods
+        reach = set()
+        work = list(run_methods)
+        while work:
+            mn = work.pop()
+            if mn in reach or mn not in c.methods:
+                continue
+            reach.add(mn)
+            for n in ast.walk(c.methods[mn].node):
+                if isinstance(n, ast.Call) and isinstance(n.func, ast.Attribute) and isinstance(n.func.value, ast.Name) and n.func.value.id == "self" and n.func.attr in c.methods:
+                    work.append(n.func.attr)
+        for mn in sorted(reach):
+            f = c.methods[mn]
+            bad = []
+            for n in ast.walk(f.node):
+                test = None
+                if isinstance(n, (ast.If, ast.While, ast.IfExp)):
+                    test = n.test
+                elif isinstance(n, ast.Assert):
+                    test = n.test
+                if test is None:
+                    continue
+                for a in sorted(_attrs_in_test(f, test)):
+                    if a in writes and (c.name, a) not in R2_EXEMPT:
+                        bad.append((n.lineno, a, unparse(test)[:80]))
+            key = "%s.%s" % (c.name, mn)
+            if bad:
+                for ln, a, txt in bad:
+                    wm, wl = writes[a][0]
+                    chk.violation("R2", "%s: branch on self.%s" % (key, a), where(c, ln), "'%s' tests self.%s, which is written at run time by %s (line %d): the outcome of this call depends on earlier evaluations / linearisations" % (txt, a, wm, wl))
+            else:
+                chk.ok("R2", key, f.where, "no branch on run-time instance state")
